@@ -583,6 +583,77 @@ func silentServer(c *ev.Check) {
 	}
 }
 
+// ------------------------------------------------------------------ requests in flight across a readiness flap
+// The sequences above probe with nothing in flight. Requests live across replies and flaps: a request holds the
+// limiter it was admitted by until it ends. "Never admits more than the configured global limit" is about everything
+// that is in flight at one time, whichever limiter admitted it.
+
+func acrossFlaps(c *ev.Check) {
+	for _, strategy := range []proxyv1alpha1.LimitStrategy{proxyv1alpha1.GlobalAllocateLimit, proxyv1alpha1.GlobalCountLimit} {
+		for _, dir := range []string{"local-then-remote", "remote-then-local"} {
+			for _, q := range []int32{globalMax, 2} { // (values of the answer alphabet)
+				w := newWorld("mif", strategy)
+				steps := allocateSteps("mif")
+				if strategy == proxyv1alpha1.GlobalCountLimit {
+					steps = countSteps("mif")
+				}
+				byName := func(n string) step {
+					for _, st := range steps {
+						if st.name == n {
+							return st
+						}
+					}
+					panic("no step " + n)
+				}
+				grantName := fmt.Sprintf("answer quota=%d", q)
+				if strategy == proxyv1alpha1.GlobalCountLimit {
+					grantName = fmt.Sprintf("acquire answer accept=true limit=%d", q)
+				}
+				grant := byName(grantName)
+				var held []flowcontrol.FlowControl
+				hold := func() int {
+					n := 0
+					fc := w.lim.GetOrDefault("s")
+					for i := 0; i < globalMax+2; i++ {
+						if !fc.TryAcquire() {
+							break
+						}
+						held = append(held, fc)
+						n++
+					}
+					return n
+				}
+				var first, second int
+				var hist string
+				if dir == "local-then-remote" {
+					byName("server not ready").do(w)
+					first = hold() // requests admitted by the local limiter, still running
+					byName("server ready").do(w)
+					grant.do(w)
+					second = hold()
+					hist = fmt.Sprintf("server not ready; %d requests admitted and still running; server ready; server grants %d; %d more requests admitted", first, q, second)
+				} else {
+					grant.do(w)
+					first = hold() // requests admitted under the granted quota, still running
+					byName("server not ready").do(w)
+					second = hold()
+					hist = fmt.Sprintf("server grants %d; %d requests admitted and still running; server not ready; %d more requests admitted", q, first, second)
+				}
+				c.Add("across_flap_scenarios", 1)
+				c.Outcome("probe_outcomes", fmt.Sprintf("across-flap/%s/%s/%d/%d+%d", strategy, dir, q, first, second))
+				if first+second > globalMax {
+					c.Violation(fmt.Sprintf("mif-%s/in-flight-across-flap-exceeds-global-limit/%s/grant=%d", strategy, dir, q), fmt.Sprintf("mif/%s: %s: %d requests are in flight at once, the global limit is %d (the local and the remote limiter count separately)", strategy, hist, first+second, globalMax),
+						map[string]interface{}{"strategy": string(strategy), "direction": dir, "grant": q})
+				}
+				for _, h := range held {
+					h.Release()
+				}
+				w.close()
+			}
+		}
+	}
+}
+
 func harnessFirstAnswer(c *ev.Check, bound int) xa.Harness {
 	body := func() interface{} {
 		var w *world
@@ -666,6 +737,7 @@ func main() {
 		tasks = append(tasks, xa.Tasks(c, harnessFirstAnswer(c, b))...)
 	}
 	tasks = append(tasks, ev.Task{Name: "real-loops-silent-server", Run: func() { silentServer(c) }})
+	tasks = append(tasks, ev.Task{Name: "in-flight-across-flaps", Run: func() { acrossFlaps(c) }})
 	c.RunTasks(tasks)
 	c.Finish(map[string]interface{}{
 		"evaluations":         c.Counter("probes") + c.Counter("schedules"),
